@@ -50,6 +50,26 @@ claim('C20', 'other',
       '(3D->2D Euler/NS at arbitrary z, mu=k=0 NS->Euler, temporal amplitudes 0 transient->steady Euler, heat unsteady->steady and variable->constant).',
       FORMULA_NOTE, 'symbolic execution of LLVM IR + parameter substitution + SMT equality', 'DESIGN.md §4 C20')
 
+STRUCT_NOTE = ('Contract models of std::string/map/vector/ostream (libstdc++ internals not analysed); allocation succeeds; masa_map summarised by its C13 contract inside masa_init; '
+               'trusted: clang-14 lowering, irdump+Engine A, z3 for path-condition feasibility; every reported counterexample is replayed on a g++ -O0 build through the public API.')
+claim('C07', 'other',
+      'MASA::masa_eval_grad_*<Scalar> executed symbolically from the IR after masa_init (registry + virtual dispatch included) with the direction index a symbolic integer: '
+      'for each valid i the result equals the symbolic derivative of the masa_eval_exact_* term (z3), for every other integer it is -1 and the error path prints; euler_1d/2d/3d, navierstokes_2d/3d_compressible, both scalar types. '
+      'API->virtual forwarding of all gradient templates is decided in C15 (shared).',
+      FORMULA_NOTE + ' Power-law gradients: see evidence (family powerlaw) or stated as not covered.', 'symbolic execution of LLVM IR with symbolic integer index + SMT identity checking', 'DESIGN.md §4 C07')
+claim('C11', 'other',
+      'One-step inductive checking of the parameter store from the post-masa_init state with ALL registered parameters symbolic: masa_set_param/get_param with a SYMBOLIC name string (covers every registered name and every unknown name), '
+      'masa_init_param, masa_purge_default_param, masa_sanity_check (one parameter symbolic at a time, z3 decides marker => nonzero and far-from-marker => 0), set_vec/get_vec for every length 0..4 (8 thorough) with symbolic contents and a length change; every catalogue class except the two fixtures, both scalar types.',
+      STRUCT_NOTE, 'symbolic execution of LLVM IR over container contract models; path-condition feasibility by z3', 'DESIGN.md §4 C11')
+claim('C14', 'other',
+      'Finite catalogue enumerated exhaustively by executing get_list_mms/masa_init/masa_printid/masa_get_name/masa_get_dimension/masa_init_param/masa_sanity_check on the IR for every entry and both scalar types; '
+      'documented evaluators (spec/capabilities.json): vtable slot overridden + no path through the API reaches a stub for symbolic arguments; interior-point finiteness with defaults is run on the real library (finite statement).',
+      STRUCT_NOTE + ' Capability and dimension tables are frozen specifications in /verif/spec.', 'symbolic execution of LLVM IR (finite exhaustive catalogue) + concrete run of the real library for the interior-point clause', 'DESIGN.md §4 C14')
+claim('C15', 'other',
+      'Every (catalogue solution, masa_eval_* API template) pair outside the capability table (about 8400 pairs, both scalar types) executed with symbolic arguments: all paths return the constant -1.33, print one MASA ERROR line, store nothing, do not terminate. '
+      'Forwarding: every API template executed against a synthetic vtable of uninterpreted slots reaches the slot of the virtual prescribed by the naming rule with the arguments in order (class-independent).',
+      STRUCT_NOTE, 'symbolic execution of LLVM IR, exhaustive over (class, API) pairs; uninterpreted vtable slots for forwarding', 'DESIGN.md §4 C15')
+
 ALL = ['C%02d' % i for i in range(1, 21)]
 
 
